@@ -23,6 +23,8 @@ Op language (a case = everything from a `reset` to the next one):
                                        client i stops reading; N requests (ids a..a+N-1, payloads v<b>..) are written
                                        back-to-back — more than the session's send queue holds —; the client resumes
                                        reading.  Same as the N-item `reqs`.
+    topo n2=<0|1|2|3>                  the cluster view changes: node n2 (chat-2, hall-2) is now Init/Working/Retiring/Retired
+                                       (n1 with gate-1, chat-1, hall-1 stays Working; reset makes n2 Working again)
     adv                                5 s of virtual time pass
 
 A route may contain `%xx` escapes: raw bytes (to send routes that are not valid UTF-8); the model sees
@@ -128,6 +130,8 @@ structure MState where
   keys : List (Nat × String) := []
   /-- connections that re-sent a handshake and have not acked yet: their data packets are not read -/
   hsing : List Nat := []
+  /-- state of node n2 (`define.NodeState`: 1 = Working) -/
+  n2 : Nat := 1
 
 def MState.sess (m : MState) (c : Nat) (added : Bool := true) : Sess :=
   ⟨c, (m.keys.find? (·.1 = c)).map (·.2), added⟩
@@ -136,7 +140,7 @@ def MState.bind (m : MState) (c : Nat) (k : String) : MState :=
   { m with keys := (c, k) :: m.keys.filter (·.1 ≠ c) }
 
 def applyOps (m : MState) (ops : List Op) : MState × String :=
-  let st' := run fixed tieCfg m.st ops
+  let st' := run fixed (tieCfg (m.n2 = 1)) m.st ops
   ({ m with st := st' }, showObs (st'.out.drop m.st.out.length) (st'.inv.drop m.st.inv.length))
 
 def modelStep (m : MState) (line : String) : MState × String :=
@@ -159,6 +163,10 @@ def modelStep (m : MState) (line : String) : MState × String :=
     | some c => ({ m with hsing := m.hsing.filter (· ≠ c) }, "ok")
     | none => (m, "bad-op")
   | some "wrap" => (m, "ok")
+  | some "topo" =>
+    match kvNat ws "n2" with
+    | some k => ({ m with n2 := k }, "ok")
+    | none => (m, "bad-op")
   | some "pipe" =>
     applyOps m ((parseItems ws).map fun it => .req (m.sess it.c false) ⟨it.id, it.route, it.pay.toModel⟩)
   | some "adv" => applyOps m [.adv 5000]
@@ -200,13 +208,16 @@ structure SState where
   answered : List (Nat × Nat) := []
   sent : List Sent := []
   hsing : List Nat := []
+  n2 : Nat := 1
 
-def zooMethods : List String := ["echo", "fail", "boom", "slow", "late", "tell", "nan"]
+def zooMethods : List String := ["echo", "fail", "boom", "slow", "late", "tell", "nan", "login", "loginw"]
 
 /-- the service a route's type names for this client (the tie's routing rules, stated directly) -/
-def namedService (keys : List (Nat × String)) (c : Nat) (t : String) : Option String :=
+def namedService (keys : List (Nat × String)) (n2 : Nat) (c : Nat) (t : String) : Option String :=
   if t = "gate" then some "gate-1"
-  else if t = "hall" then some "hall-1"
+  -- no rule for hall: the first WORKING instance (n2's hall-2 is listed first)
+  else if t = "hall" then some (if n2 = 1 then "hall-2" else "hall-1")
+  -- chat: the rule names the instance; it is used whatever the state of its node
   else if t = "chat" then
     match (keys.find? (·.1 = c)).map (·.2) with
     | some k => if k = "chat-1" ∨ k = "chat-2" then some k else none
@@ -218,10 +229,10 @@ def payV : Pay → Option Nat
   | .null => some 0
   | _ => none
 
-def classify (keys : List (Nat × String)) (it : Item) : Expect × String × Option String × Bool :=
+def classify (keys : List (Nat × String)) (n2 : Nat) (it : Item) : Expect × String × Option String × Bool :=
   match it.route.splitOn "." with
   | [t, g, m] =>
-    match namedService keys it.c t with
+    match namedService keys n2 it.c t with
     | none => (.error, "no-target", none, false)
     | some svc =>
       let known := g = "zoo" ∧ zooMethods.contains m
@@ -372,7 +383,7 @@ def observe (st : SState) (obs : String) (isFlush : Bool) : SState × String :=
 def specReqs (st : SState) (ws : List String) (obs : String) (early : Bool) : SState × String :=
   -- data packets on a connection that is re-handshaking are ignored by the session's reader
   let st' := ((parseItems ws).filter fun it => ¬ st.hsing.contains it.c).foldl (fun (st : SState) it =>
-    let (ex, cls, tgt, deliverable) := classify st.keys it
+    let (ex, cls, tgt, deliverable) := classify st.keys st.n2 it
     let desc := s!"c{it.c} id={it.id} route={it.route}"
     let st := match payV it.pay with
       | some v => if v = 0 then st else
@@ -400,6 +411,7 @@ def specStep (st : SState) (line : String) : SState × String :=
       match kvNat ws "c" with
       | some c => ({ st with hsing := st.hsing.filter (· ≠ c) }, "ok")
       | none => (st, "ok")
+    | some "topo" => ({ st with n2 := (kvNat ws "n2").getD st.n2 }, "ok")
     | some "reqs" | some "flood" => specReqs st ws obs false
     | some "pipe" => specReqs st ws obs true
     | some "adv" => observe st obs false
